@@ -135,6 +135,66 @@ func TestVerifBoundedKmerIndex(t *testing.T) {
 		}
 		rec(nil, false)
 	}
+	// k-mers wider than one machine word (two limbs of Uint128 in use): periodic sequences of length k+3 built from every
+	// unit of length <= min(bound, 6); keys are decoded back to strings and compared with the lexicographic minimum of
+	// the window and its reverse complement (same order as the 2-bit encoding)
+	decodeKey := func(key obifp.Uint128, n int) string {
+		b := make([]byte, n)
+		for i := n - 1; i >= 0; i-- {
+			b[i] = "acgt"[key.AsUint64()&3]
+			key = key.RightShift(2)
+		}
+		if key.AsUint64() != 0 {
+			return "overflow"
+		}
+		return string(b)
+	}
+	ub := bound
+	if ub > 6 {
+		ub = 6
+	}
+	for _, c := range []cfg{{34, false}, {62, false}, {33, true}, {61, true}} {
+		km := NewKmerMap[obifp.Uint128](obiseq.BioSequenceSlice{}, c.k, c.sparse, -1)
+		k := int(km.Kmersize)
+		var units func(prefix []byte)
+		units = func(prefix []byte) {
+			if len(prefix) > 0 {
+				seq := make([]byte, k+3)
+				for i := range seq {
+					seq[i] = prefix[i%len(prefix)]
+				}
+				s := string(seq)
+				cases++
+				ks := km.NormalizedKmerSlice(obiseq.NewBioSequence("x", []byte(s), ""), nil)
+				if len(ks) != 4 {
+					fail(fmt.Sprintf("k=%d,sparse=%v,seq=%s:nkeys=%d", k, c.sparse, s, len(ks)))
+				}
+				sp := func(x string) string {
+					if km.SparseAt < 0 {
+						return x
+					}
+					return x[:km.SparseAt] + x[km.SparseAt+1:]
+				}
+				for i := 0; i < len(ks) && i+k <= len(s); i++ {
+					f, r := sp(s[i:i+k]), sp(verifRC(s[i:i+k]))
+					want := f
+					if r < f {
+						want = r
+					}
+					if got := decodeKey(ks[i], len(want)); got != want {
+						fail(fmt.Sprintf("k=%d,sparse=%v,seq=%s,window=%d:got=%s,want=%s", k, c.sparse, s, i, got, want))
+					}
+				}
+			}
+			if len(prefix) == ub {
+				return
+			}
+			for i := 0; i < 4; i++ {
+				units(append(prefix, "acgt"[i]))
+			}
+		}
+		units(nil)
+	}
 	fmt.Printf("VERIF-BOUNDED name=kmer-index bound=%d cases=%d failures=%d first=%s\n", bound, cases, failures, first)
 	if failures > 0 {
 		t.Fail()
